@@ -136,7 +136,8 @@ def run_history(case, ctx, sdir):
                         rec.violation("private/custom-rule-leaked-into-default-validation", "", dict(case, upto=si))
                 elif name == "custom":
                     tgt = doc if step[1] == "doc" or not secs else secs[step[2] % len(secs)]
-                    cv = Validation(tgt, validate=False, reset=True)
+                    # (the flag in the forms callers use: True, 1, a non-empty text)
+                    cv = Validation(tgt, validate=False, reset=[True, 1, "yes", True][step[2] % 4])
                     if cv._handlers is Validation._handlers:
                         rec.violation("private/reset-validation-shares-default-registry", "", dict(case, upto=si))
                     cv.register_custom_handler("section", sentinel)
